@@ -25,6 +25,7 @@ REQS = {
     'c': ((1, 2, 3, 9), (1, 2, 3)),
     'd': ((4, 9), (4,)),
     'e': ((1, 8), (1,)),          # another request that expects the same reply pattern as 'a'
+    'f': ((1, 2, 7), (1,)),       # expects the short pattern; its reply also begins with the patterns of 'b' (1, 2)
 }
 HORIZON = 2.45
 
@@ -412,6 +413,13 @@ def configs(quick):
         _cfg('reopen:same-pattern:tie', 'a', close_at=0.4, reopen_after=0.0, reqs2='e'),
         _cfg('reopen:same-pattern', 'a', close_at=0.3, reopen_after=0.05, reqs2='e'),
         _cfg('poll:a->e', 'a', poll='e'),
+        # a request still unanswered when its session ends (closed or lost before the first retry) and, in the next session,
+        # a request whose reply begins with the old one's longer pattern / a longer pattern whose reply the old shorter one
+        # would match / all three prefix-sharing patterns after an unanswered one
+        _cfg('reopen:stale-longer', 'b', close_at=0.1, reopen_after=0.05, reqs2='f'),
+        _cfg('error-reopen:stale-longer', 'b', close_at=0.1, reopen_after=0.05, reqs2='f', by_error=True),
+        _cfg('reopen:stale-shorter', 'a', close_at=0.1, reopen_after=0.05, reqs2='b'),
+        _cfg('reopen:stale-middle', 'b', close_at=0.1, reopen_after=0.05, reqs2='fc'),
     ]
     return out
 
